@@ -43,6 +43,11 @@ def unwrap_opt(interp, st, v, what='value'):
 # ------------------------------------------------------------------ arithmetic
 def binop(interp, st, op, a, b):
     for x in (a, b):
+        if isinstance(x, Unknown):
+            x.note(interp, st)
+            yield st, Unknown(x.name + ' op', x.owner)
+            return
+    for x in (a, b):
         if isinstance(x, SV) and hasattr(x.ty, 'binop'):
             yield from x.ty.binop(interp, st, op, a, b)
             return
@@ -117,12 +122,17 @@ def binop(interp, st, op, a, b):
     if isinstance(op, ast.Mod) and isinstance(a, str):
         # printf-style formatting: opaque deterministic function
         raise Unsupported('%-formatting')
-    # set difference on heap sets
-    if isinstance(op, ast.Sub) and is_heap(a, 'set') and is_heap(b, 'set'):
+    # set algebra on heap sets: a new set
+    if isinstance(op, (ast.Sub, ast.BitOr, ast.BitAnd)) and is_heap(a, 'set') and is_heap(b, 'set') and a.ty.cls.elem == b.ty.cls.elem:
         r = new_heap(st, a.ty.cls)
         ma, mb = st.heap.read(a.ty.cls, 'm', a.z), st.heap.read(b.ty.cls, 'm', b.z)
         x = z3.Const(sym.fresh_name('x'), a.ty.cls.elem.sort())
-        lam = z3.Lambda([x], z3.And(z3.Select(ma, x), z3.Not(z3.Select(mb, x))))
+        if isinstance(op, ast.Sub):
+            lam = z3.Lambda([x], z3.And(z3.Select(ma, x), z3.Not(z3.Select(mb, x))))
+        elif isinstance(op, ast.BitOr):
+            lam = z3.Lambda([x], z3.Or(z3.Select(ma, x), z3.Select(mb, x)))
+        else:
+            lam = z3.Lambda([x], z3.And(z3.Select(ma, x), z3.Select(mb, x)))
         st.heap.write(a.ty.cls, 'm', r.z, lam)
         yield st, r
         return
@@ -158,6 +168,12 @@ def augop(interp, st, op, cur, rhs):
         return
     if isinstance(cur, tuple) and isinstance(op, ast.Add) and isinstance(rhs, tuple):
         yield st, cur + rhs
+        return
+    if is_heap(cur, 'set') and isinstance(op, (ast.BitOr, ast.Sub, ast.BitAnd)):
+        # set.__ior__/__isub__/__iand__ mutate the receiver (every alias sees it)
+        meth = {ast.BitOr: 'update', ast.Sub: 'difference_update', ast.BitAnd: 'intersection_update'}[type(op)]
+        for s, r in call_method(interp, st, cur, meth, [rhs], {}):
+            yield s, (r if isinstance(r, Raised) else INPLACE_DONE)
         return
     for s, r in binop(interp, st, op, cur, rhs):
         yield s, r
@@ -473,6 +489,12 @@ def getattr_(interp, st, v, name):
             else:
                 yield st, a
             return
+        if getattr(v.ty, 'lenient', False):
+            # an attribute of an opaque library object the sidecar does not model: anything may come back
+            u = Unknown(f'{v.ty.name()}.{name}')
+            u.note(interp, st)
+            yield st, u
+            return
         raise Unsupported(f'opaque {v.ty.name()} has no modelled attribute {name!r}')
     if isinstance(v, ExcClass):
         raise Unsupported(f'attribute {name} of exception class')
@@ -518,6 +540,10 @@ def norm_index(zi, zn):
 
 def getitem(interp, st, v, idx):
     v = resolve(st, v)
+    if isinstance(v, Unknown):
+        v.note(interp, st)
+        yield st, Unknown(v.name + '[]', v.owner)
+        return
     if isinstance(v, SV) and isinstance(v.ty, Opt):
         v = unwrap_opt(interp, st, v, 'subscript_receiver')
     if isinstance(v, tuple):
@@ -682,6 +708,10 @@ def getslice(interp, st, v, lo, hi, step):
 
 def setitem(interp, st, o, idx, v):
     o = resolve(st, o)
+    if isinstance(o, Unknown):
+        st.emit('unknown_state_set', name=o.name)       # a write into state nobody under contract reads
+        yield st, None
+        return
     if isinstance(o, PyRef) and o.kind == 'dict':
         if not isinstance(idx, (str, int, bytes)):
             raise Unsupported('symbolic key store into concrete dict')
@@ -836,6 +866,10 @@ def unpack(interp, st, v, n):
 def call_method(interp, st, recv, name, args, kwargs):
     from . import models
     recv = resolve(st, recv)
+    if isinstance(recv, Unknown):
+        recv.note(interp, st)
+        yield st, Unknown(f'{recv.name}.{name}()', recv.owner)
+        return
     if isinstance(recv, SV) and isinstance(recv.ty, Opt):
         recv = unwrap_opt(interp, st, recv, f'method_{name}_receiver')
     yield from models.method(interp, st, recv, name, args, kwargs)
